@@ -46,7 +46,7 @@ def doc_labels(doc):
     if any("Caption" in c for c in chains):
         labels.append("caption")
     for f in doc.get("features", []):
-        if f in ("tall-cell", "jump-list"):
+        if f in ("tall-cell", "jump-list", "foreign-prefix-link"):
             labels.append(f)
     kinds = set()
     for c in chains:
@@ -56,3 +56,24 @@ def doc_labels(doc):
     nontrivial = len(kinds) >= 2 and any(
         (sum(1 for x in c if x in ("Item", "Table", "Row")) + sum(1 for x in c if x.startswith(("Sec:", "Link", "List"))) + sum(1 for x in c if x in ("Strong", "Emphasized"))) >= 2 for c in chains)
     return labels, nontrivial
+
+
+_warm = [False]
+
+
+def warmup():
+    """One process parses documents of all site languages: before the first judged document every language has parsed a
+    line of links whose prefixes are namespaces on *other* sites only, so that state shared between the sites' handlers
+    (a cache keyed by prefix, say) is in place for every case and for every replay of a single case."""
+    if _warm[0]:
+        return
+    _warm[0] = True
+    import random
+
+    for lang in LANGS:
+        g = G(random.Random(0), lang)
+        src = " ".join("[[%s:Xq|q]] [[:%s:Xq|q]]" % (p, p) for p in g.foreign_prefixes()) + "\n"
+        try:
+            parse(dict(src=src, lang=lang))
+        except Exception:
+            pass
